@@ -181,7 +181,7 @@ def check_case(case, rec=None):
     return None
 
 
-N = {"quick": 320, "thorough": 2400}
+N = {"quick": 450, "thorough": 3000}
 
 
 def shard_plan(tier):
